@@ -160,14 +160,23 @@ def well_of(world, addr):
 
 
 # ---- actions -----------------------------------------------------------------------------------------------------
-def apply(pp, subs, world, act):
+def apply(pp, subs, world, act, operands=None):
     """Perform one action through the real API. Returns obs = {'ok', 'exc', 'new': {name: object}, 'ret'}.
-    The world dict is NOT modified; commit(world, obs) rebinds the names."""
+    The world dict is NOT modified; commit(world, obs) rebinds the names.
+    operands: a dict in which the operand objects (slices included) are kept, and from which they are taken when present:
+    calling apply twice with the same dict performs the action twice through the very same slice objects."""
     op = act['op']
     held = []           # (list object handed to the call, its value before)
+    res = resolve
+    if operands is not None:
+        def res(w, r):
+            k = repr(r)
+            if k not in operands:
+                operands[k] = resolve(w, r)
+            return operands[k]
     try:
         if op == 'transfer':
-            src, dst = resolve(world, act['src']), resolve(world, act['dst'])
+            src, dst = res(world, act['src']), res(world, act['dst'])
             dbase = world[refname(act['dst'])]
             if is_plate(dbase):
                 r = pp.Plate.transfer(src, dst, act['q'])
@@ -177,16 +186,16 @@ def apply(pp, subs, world, act):
             new[refname(act['dst'])] = r[1]          # as a recipe does: source first, then destination
         elif op == 'remove':
             what = CLASSES[act['what']] if act['what'] in CLASSES else subs[act['what']]
-            r = resolve(world, act['obj']).remove(what)
+            r = res(world, act['obj']).remove(what)
             new = {refname(act['obj']): r}
         elif op == 'fill_to':
-            r = resolve(world, act['obj']).fill_to(subs[act['solvent']], act['q'])
+            r = res(world, act['obj']).fill_to(subs[act['solvent']], act['q'])
             new = {refname(act['obj']): r}
         elif op == 'dilute':
             r = world[act['obj']].dilute(subs[act['solute']], act['conc'], subs[act['solvent']], act.get('new_name'))
             new = {act['obj']: r}          # a renamed result stays bound to the name it was declared under
         elif op == 'observe':   # every read-only observer; returns nothing new
-            o = resolve(world, act['obj'])
+            o = res(world, act['obj'])
             base = world[refname(act['obj'])]
             if is_plate(base):
                 o.get_substances(), o.get_volumes(), o.get_volumes(subs['water'], 'mL'), o.get_moles(subs['nacl'])
